@@ -176,35 +176,11 @@ def run(rep, tier):
                 ok, why = False, "with %d unexplored end(s) the vertex is %sexplored and the error is %sraised" % (k_, "" if xc else "not ", "" if xt else "not ")
                 break
         arg = str(calls[0]["args"][0]) if calls[0]["args"] else ""
+        # the vector has exactly one element when the call happens: front(), back() and at(0) are that element
+        arg = re.sub(r"(front|back)\(getUnexploredVertex\(this, %s\)\)" % re.escape(ep), "at(getUnexploredVertex(this, %s), 0)" % ep, arg)
         if ok and not ("at(getUnexploredVertex(this, %s), 0)" % ep in arg and "getNode(%s, at(getUnexploredVertex(this, %s), 0))" % (gp, ep) in arg and str(calls[0]["args"][-1]) == ep):
             ok, why = False, "the explored vertex/node/edge is %s" % [str(a)[:80] for a in calls[0]["args"]]
     rep.check(ok, "R16.4", "exec", "exec explores the single unexplored end of the edge with that edge", "GraphVisitor::exec: " + why, ex.loc(), sample=True)
-    ge = F.one(T + "Graph_BF_Visitor::getEdge_")
-    rep.analysed(ge)
-    fg = Fold(ge, record_calls=r"::pop$|::pop_front$").run()
-    rv = fg.returns[0][0] if len(fg.returns) == 1 else None
-    pops = [e for e in fg.events if e["kind"] == "call" and e["callee"].endswith("::pop")]
-    pf = [e for e in fg.events if e["kind"] == "call" and e["callee"].endswith("::pop_front")]
-    ok = str(rv) == "front(at(edge_que_, 0))" and len(pops) == 1 and str(pops[0]["obj"]) == "at(edge_que_, 0)" and not pops[0]["guards"] and len(pf) == 1 and str(pf[0]["obj"]) == "edge_que_"
-    if ok:
-        g0 = pf[0]["guards"]
-        ok = len(g0) == 1 and decide(g0[0][0], {Fn("size")(Fn("at")(S("edge_que_"), sp.Integer(0))): sp.Integer(0)}) == g0[0][1] and \
-            decide(g0[0][0], {Fn("size")(Fn("at")(S("edge_que_"), sp.Integer(0))): sp.Integer(2)}) != g0[0][1]
-    rep.check(ok, "R16.4", "bf-queue|oldest-first", "the oldest edge of the oldest level is handed out; an exhausted level is dropped",
-              "Graph_BF_Visitor::getEdge_ returns %s, pops %s, drops the level under %s" % (rv, [str(e["obj"]) for e in pops], [guard_strs(fg, e["guards"]) for e in pf]), ge.loc(), sample=True)
-    ae = F.one(T + "Graph_BF_Visitor::addEdges_")
-    rep.analysed(ae)
-    fa = Fold(ae, record_calls=r"queue<votca::tools::Edge>::push$").run()
-    vp = ae.j["params"][1]["name"]
-    pushes = [e for e in fa.events if e["kind"] == "call"]
-    ok = len(pushes) >= 1
-    for e in pushes:
-        inner = [g_ for g_ in e["guards"] if "explored_" in str(g_[0])]
-        okk = len(inner) == 1 and isinstance(inner[0][0], tuple) and inner[0][0][0] in ("==", "!=") and re.match(r"^count\(explored_, getOtherEndPoint\((\w+@L\d+), %s\)\)$" % vp, str(inner[0][0][1])) is not None \
-            and ((inner[0][0][0] == "==") == inner[0][1]) and inner[0][0][2] == 0 and str(e["args"][0]) in str(inner[0][0][1])
-        ok = ok and okk
-    rep.check(ok, "R16.4", "bf-queue|unexplored-only", "an edge is queued only if its other end is unexplored", "Graph_BF_Visitor::addEdges_ queues edges under %s" % [guard_strs(fa, e["guards"])[-1:] for e in pushes], ae.loc())
-
     # ---------------------------------------------------------------- R16.5
     sn = F.one(T + "singleNetwork")
     rep.analysed(sn)
@@ -212,12 +188,12 @@ def run(rep, tier):
     gn, vn = [p_["name"] for p_ in sn.j["params"][:2]]
     evs = [e for e in fs.events if e["kind"] == "call"]
     rets = [e for e in fs.events if e["kind"] == "return"]
-    ok, why = len(evs) == 1 and len(rets) == 1 and not evs[0]["guards"], "exploreGraph calls %d, returns %d" % (len(evs), len(rets))
+    ok, why = len(evs) == 1 and len(rets) >= 1 and not evs[0]["guards"], "exploreGraph calls %d, returns %d" % (len(evs), len(rets))
     if ok:
-        ok = fs.events.index(evs[0]) < fs.events.index(rets[0]) and [str(a) for a in evs[0]["args"]] == [gn, vn]
+        ok = all(fs.events.index(evs[0]) < fs.events.index(r_) for r_ in rets) and [str(a) for a in evs[0]["args"]] == [gn, vn]
         why = "the exploration does not run (on this graph and visitor) before the result is formed"
     if ok:
-        val = rets[0]["value"]
+        cfs = getattr(fs, "conds", {})
 
         def cls5(lf):
             if isinstance(lf, tuple) and len(lf) == 3 and lf[0] in ("==", "!="):
@@ -226,9 +202,17 @@ def run(rep, tier):
                     return ("ALL", lf[0] == "==")
                 if "size(getIsolatedNodes(%s))" % gn in (a_, b_) and "0" in (a_, b_):
                     return ("NOISO", lf[0] == "==")
+            if nows(str(lf)) == "empty(getIsolatedNodes(%s))" % gn:
+                return ("NOISO", True)
             return None
         for al, ni in itertools.product((True, False), repeat=2):
-            r_ = decide(val, None, {"ALL": al, "NOISO": ni}, cls5, getattr(fs, "conds", {}))
+            A = {"ALL": al, "NOISO": ni}
+            taken = [r_ for r_ in rets if executes(r_, None, A, cls5, cfs)]
+            und = [r_ for r_ in rets if executes(r_, None, A, cls5, cfs) is None]
+            r_ = None
+            if len(taken) == 1 and not und:
+                v_ = taken[0]["value"]
+                r_ = bool(v_) if v_ in (True, False, sp.true, sp.false) else decide(v_, None, A, cls5, cfs)
             if r_ is None or r_ != (al and ni):
                 ok, why = False, "for all-vertices-reached=%s, no-isolated-node=%s the result is %s" % (al, ni, r_)
                 break
@@ -352,37 +336,58 @@ def check_bfs(rep, F):
             return ("LOCAL_EMPTY", True)
         return None
     ok, why = True, ""
-    pushes = [e for e in fa.events if e["kind"] == "call" and e["callee"].split("::")[-1] in ("push", "emplace") and e["obj"] is not None and str(e["obj"]) != "edge_que_"]
+    alias = {nm: str(v_) for nm, v_ in getattr(fa, "opaque_inits", {}).items() if isinstance(v_, sp.Symbol)}
+
+    def cq(v):
+        t = str(v)
+        seen = set()
+        while t in alias and alias[t] != t and t not in seen:
+            seen.add(t)
+            t = alias[t]
+        return t
+    allp = [e for e in fa.events if e["kind"] == "call" and e["callee"].split("::")[-1] in ("push", "emplace") and e["obj"] is not None and str(e["obj"]) != "edge_que_" and e["args"]]
+    moved = lambda e: str(getattr(e["args"][0], "func", "")) == "front" and e["args"][0].args
+    pushes = [e for e in allp if not moved(e)]                 # an edge of the new vertex is queued
+    moves = [e for e in allp if moved(e)]                      # the content of one queue is appended to another
     appends = [e for e in fa.events if e["kind"] == "call" and str(e["obj"]) == "edge_que_"]
     rep.floor("R16.7", len(pushes), 1, "edge pushes in addEdges_")
+    vp = ae.j["params"][1]["name"]
+    for e in pushes:
+        # queued only if the other end of that very edge is unexplored
+        x_new = [executes(e, {Qsz: sp.Integer(k)}, {"EMPTY": k == 0, "NEW": False, "LOCAL_EMPTY": False}, orc, ca) for k in (0, 1, 2)]
+        if any(x is not False for x in x_new) or not any(("getOtherEndPoint(%s, %s)" % (e["args"][0], vp)) in str(g_[0]) for g_ in e["guards"]):
+            ok, why = False, "the edge pushed at line %s is queued although its other end is already explored (or the test looks at another edge)" % e["node"].get("line")
     for k in (0, 1, 2):
-        A = {"EMPTY": k == 0, "NEW": True, "LOCAL_EMPTY": False}
-        sub = {Qsz: sp.Integer(k)}
-        hit = []
-        for e in pushes:
-            x = executes(e, sub, A, orc, ca)
-            if x is None:
-                ok, why = False, "cannot decide whether the push at line %s runs with %d level queues" % (e["node"].get("line"), k)
-                break
-            if x:
-                hit.append(e)
         if not ok:
             break
-        if len(hit) != 1:
-            ok, why = False, "with %d level queue(s) the edge of an unexplored neighbour is pushed %d times" % (k, len(hit))
+        A = {"EMPTY": k == 0, "NEW": True, "LOCAL_EMPTY": False}
+        sub = {Qsz: sp.Integer(k)}
+        dec = lambda e: executes(e, sub, A, orc, ca)
+        if any(dec(e) is None for e in allp + appends):
+            ok, why = False, "cannot decide which queue operations run with %d level queue(s)" % k
             break
-        tgt = str(hit[0]["obj"])
+        recv = {cq(e["obj"]) for e in pushes if dec(e)}
+        drained = set()
+        for e in moves:
+            if dec(e) and cq(e["args"][0].args[0]) in recv:
+                recv.add(cq(e["obj"]))
+                drained.add(cq(e["args"][0].args[0]))
+        final = recv - drained
+        if len(final) != 1:
+            ok, why = False, "with %d level queue(s) the edges of the new vertex end up in %s" % (k, sorted(final))
+            break
+        tgt = next(iter(final))
+        app = [e for e in appends if dec(e)]
         if k < 2:
-            # a queue of its own, appended behind the existing ones
-            app = [e for e in appends if executes(e, sub, A, orc, ca)]
-            good = "edge_que_" not in tgt and len(app) == 1 and app[0]["callee"].split("::")[-1] in ("push_back", "emplace_back") and [str(a) for a in app[0]["args"]] == [tgt]
+            good = "edge_que_" not in tgt and len(app) == 1 and app[0]["callee"].split("::")[-1] in ("push_back", "emplace_back") and [cq(a) for a in app[0]["args"]] == [tgt]
             if not good:
                 ok, why = False, "with %d level queue(s) the new edges go to %s and edge_que_ is extended by %s: they must start a queue of their own behind the one being drained" % (
                     k, tgt, [(e["callee"].split("::")[-1], [str(a) for a in e["args"]]) for e in app])
                 break
         else:
-            if tgt not in ("at(edge_que_, 1)", "back(edge_que_)"):
-                ok, why = False, "with two level queues the new edges are pushed to %s: edges of a deeper level overtake pending shallower ones (not the second queue), so distance labels exceed the shortest path" % tgt
+            if tgt not in ("at(edge_que_, 1)", "back(edge_que_)") or app:
+                ok, why = False, "with two level queues the new edges are pushed to %s%s: edges of a deeper level overtake pending shallower ones (not the second queue), so distance labels exceed the shortest path" % (
+                    tgt, " and edge_que_ is extended" if app else "")
                 break
     rep.check(ok, "R16.7", "bfs|enqueue", "new edges never join the level queue being drained", "Graph_BF_Visitor::addEdges_: " + why, ae.loc(), sample=True)
     fg = Fold(ge, record_calls=RC).run()
